@@ -49,6 +49,9 @@ def plan(prop, tier):
     sch = {'C02': f, 'C08': f, 'C09': b}.get(prop, both)
     P[prop].append(('L8', lambda: LY.L8(tier, sch)))
     P[prop].append(('L7m', lambda: LY.L7m(tier, sch)))
+    P[prop].append(('L1p', lambda: LY.L1p(tier, sch)))
+    if prop in ('C03', 'C04', 'C14'):
+        P[prop].append(('L2ms', lambda: LY.L2ms(tier)))
     if prop in ('C07', 'C14', 'C04', 'C03'):
         P[prop].append(('L2n', lambda: LY.L2n(tier)))
     if prop != 'C09':
@@ -624,7 +627,8 @@ def c06_clock(sc, acc):
 
 def _c06_layers(tier):
     return [('L1', lambda: LY.L1(tier)), ('L1x', lambda: LY.L1x(tier)), ('L1y', lambda: LY.L1y(tier)), ('L2', lambda: LY.L2(tier)), ('L3', lambda: LY.L3(tier)),
-            ('L6', lambda: LY.L6(tier)), ('L4clock', lambda: LY.L4_inputs(tier, ('fwd',))), ('H', None)]
+            ('L6', lambda: LY.L6(tier)), ('L4clock', lambda: LY.L4_inputs(tier, ('fwd',))), ('L2ms', lambda: LY.L2ms(tier)),
+            ('L2n', lambda: LY.L2n(tier)), ('L1p', lambda: LY.L1p(tier)), ('H', None)]
 
 
 def _work_c06(chunk):
